@@ -90,7 +90,8 @@ def run_tlc(
     lib: Path | None = None,
 ) -> TlcResult:
     """Run TLC on specdir/module.tla with config cfg (default module.cfg).  Output is captured."""
-    meta = wd / ("meta_" + module + "_" + str(int(time.time() * 1000) % 10**9))
+    import uuid
+    meta = wd / ("meta_" + module + "_" + uuid.uuid4().hex[:12])
     cmd = ["java", "-XX:+UseSerialGC" if str(workers) == "1" else "-XX:+UseParallelGC", f"-Xmx{heap}"]
     if stack:
         cmd.append(f"-Xss{stack}")
